@@ -29,12 +29,29 @@ theorem afterWrLock_flush (s : St σ) (t : Tid) (m : Meth) (h : waitsInput ((aft
   · rename_i hw
     exact rdPart_wbio _ t m (by simpa [St.release, St.log, St.setLock] using hw)
 
+theorem rdPart_sendLock (s : St σ) (t : Tid) (m : Meth) : (rdPart s t m).sendLock = s.sendLock := by
+  unfold rdPart St.acquire; split <;> split <;> rfl
+
+/-- the WANT_READ branch leaves its task waiting for input only with an empty outgoing BIO — or, when it skipped the send
+    lock because another task is already queued for it, with that task still queued (it flushes everything when granted) -/
 theorem wrPart_flush (s : St σ) (t : Tid) (m : Meth) (h : waitsInput ((wrPart s t m).pc t) = true) :
-    (wrPart s t m).wbio = [] := by
+    (wrPart s t m).wbio = [] ∨ (wrPart s t m).sendLock.waiters ≠ [] := by
   unfold wrPart at h ⊢
   split
-  · rename_i hg; rw [if_pos hg] at h; exact afterWrLock_flush _ t m h
-  · rename_i hg; rw [if_neg hg] at h; simp [St.setPc, upd, waitsInput] at h
+  · rename_i hc; rw [if_pos hc] at h
+    split
+    · rename_i hg; rw [if_pos hg] at h; exact .inl (afterWrLock_flush _ t m h)
+    · rename_i hg; rw [if_neg hg] at h; simp [St.setPc, upd, waitsInput] at h
+  · rename_i hc
+    -- the send lock is not taken at all: nothing pending, or somebody is already queued
+    by_cases hw : s.wbio = []
+    · exact .inl (rdPart_wbio s t m hw)
+    · right
+      rw [rdPart_sendLock]
+      intro hq
+      apply hc
+      unfold St.wantsSendLock
+      cases hp : s.wrPolicy <;> simp [hw, hq]
 
 theorem afterWwLock_pc (s : St σ) (t : Tid) (m : Meth) : waitsInput ((afterWwLock s t m).pc t) = false := by
   simp [afterWwLock, St.setPc, upd, waitsInput]
@@ -61,7 +78,7 @@ theorem failOs_pc (s : St σ) (t : Tid) (m : Meth) (b : Bool) : waitsInput ((fai
   unfold failOs; split <;> (rw [finish_pc]; rfl)
 
 theorem attempt_flush (s : St σ) (t : Tid) (m : Meth) (h : waitsInput ((attempt E s t m).pc t) = true) :
-    (attempt E s t m).wbio = [] := by
+    (attempt E s t m).wbio = [] ∨ (attempt E s t m).sendLock.waiters ≠ [] := by
   unfold attempt at h ⊢
   split
   · rename_i r hr; rw [hr] at h; simp only at h
@@ -75,19 +92,19 @@ theorem attempt_flush (s : St σ) (t : Tid) (m : Meth) (h : waitsInput ((attempt
   · rename_i hr; rw [hr] at h; simp only at h; rw [finish_pc] at h; cases h
 
 theorem apiCall_flush (s : St σ) (t : Tid) (a : Api) (h : waitsInput ((apiCall E s t a).pc t) = true) :
-    (apiCall E s t a).wbio = [] := by
+    (apiCall E s t a).wbio = [] ∨ (apiCall E s t a).sendLock.waiters ≠ [] := by
   cases a <;> exact attempt_flush _ t _ h
 
 /-- **flush before wait** for one step of task `t` -/
 theorem resume_flush (s s' : St σ) (t : Tid) (io : IoRes) (hs : resume E s t io = some s')
     (h : waitsInput (s'.pc t) = true) :
-    (∃ m, s.pc t = .wrSend m) ∨ (∃ m, s.pc t = .rdLock m) ∨ s'.wbio = [] := by
+    (∃ m, s.pc t = .wrSend m) ∨ (∃ m, s.pc t = .rdLock m) ∨ s'.wbio = [] ∨ s'.sendLock.waiters ≠ [] := by
   unfold resume at hs
   split at hs
   · cases hs
   · simp only [Option.map_eq_some_iff] at hs
     obtain ⟨s1, _, rfl⟩ := hs
-    exact .inr (.inr (afterWrLock_flush _ t _ h))
+    exact .inr (.inr (.inl (afterWrLock_flush _ t _ h)))
   · rename_i m hpc; exact .inl ⟨m, hpc⟩
   · cases hs; rw [failOs_pc] at h; cases h
   · rename_i m hpc; exact .inr (.inl ⟨m, hpc⟩)
